@@ -2,7 +2,7 @@
    packet of TOI 0, and the packets of the object, pushed through recv_step / recv_run from recv0 / ctx0.
    Lifts Proofs/C02Full.v (object receiver) through push_fdt_obj / push_obj, create_attach, attach_all,
    check_state and the receive-once bookkeeping. *)
-From FluteV Require Import Model.Partition Spec.C07Spec Proofs.PartitionProofs Model.ObjRecv Model.Recv
+From FluteV Require Import Proofs.D48Step Model.Partition Spec.C07Spec Proofs.PartitionProofs Model.ObjRecv Model.Recv
   Spec.RecvSpec Spec.SessionSpec Proofs.RecvProofs Proofs.SessionProofs Proofs.C02Full Proofs.C09Full.
 From Coq Require Import Lia.
 Open Scope N_scope.
@@ -367,7 +367,8 @@ Section Obj.
     unfold init_partition at 1. unfold nb_block at 1. prj.
     change (0 <? 0 + N.of_nat (length (@nil bdec))) with false. cbv iota beta. rewrite Hpart. cbv iota beta.
     unfold init_writer. prj. rewrite Hnc, Hbld. cbv iota beta zeta.
-    rewrite Hopen. cbn [negb]. destruct (N.eqb_spec (lenN_ content) 0) as [G|_]; [lia|]. prj.
+    rewrite Hopen. cbn [negb]. destruct (N.eqb_spec (lenN_ content) 0) as [G|HL0]; [lia|]. prj.
+    try (d48_skip HL0).
     match goal with |- context [push_from_cache E ?x ?y] => set (o3 := x); set (c3 := y) end.
     pose proof (PF n_pos) as Hn.
     set (m := N.to_nat (N.min n 2048)) in *.
@@ -435,7 +436,8 @@ Section Inband.
     unfold init_partition at 1. unfold nb_block at 1. prj.
     change (0 <? 0 + N.of_nat (length (@nil bdec))) with false. cbv iota beta. rewrite Hpart. cbv iota beta.
     unfold init_writer. prj. change (ncalls ctx0 0) with 0%nat. rewrite Hbld. cbv iota beta zeta.
-    rewrite Hopen. cbn [negb]. destruct (N.eqb_spec (lenN_ content) 0) as [G|_]; [lia|]. prj.
+    rewrite Hopen. cbn [negb]. destruct (N.eqb_spec (lenN_ content) 0) as [G|HL0]; [lia|]. prj.
+    try (d48_skip HL0).
     match goal with |- context [push_from_cache E ?x ?y] => set (o3 := x); set (c3 := y) end.
     pose proof (PF n_pos) as Hn.
     set (m := N.to_nat (N.min n 2048)) in *.
@@ -1271,7 +1273,8 @@ Section Session.
     unfold init_partition at 1. unfold nb_block at 1. prj.
     destruct (N.ltb_spec 0 (0 + N.of_nat (length bl))) as [_|G]; [|lia].
     unfold init_writer. prj. rewrite Hnc, A1. cbv iota beta zeta.
-    rewrite A2. cbn [negb]. destruct (N.eqb_spec Lc 0) as [G|_]; [lia|]. prj.
+    rewrite A2. cbn [negb]. destruct (N.eqb_spec Lc 0) as [G|HL0]; [lia|]. prj.
+    try (d48_skip HL0).
     match goal with |- context [push_from_cache E ?x ?y] => set (o3 := x); set (c3 := y) end.
     assert (Hnb : 0 < nb_block o3) by (unfold nb_block, o3; prj; lia).
     assert (I3 : push_from_cache E o3 c3 = (o3, c3)).
